@@ -189,6 +189,83 @@ fn check(c: &Case, ctx: &Ctx) -> Outcome {
     }
 }
 
+// ---- a weed file as long as a bacterial genome (more than 2^22 split k-mers) ----
+
+#[derive(Clone, Debug, Serialize, Deserialize)]
+pub struct LongWeedCase {
+    pub seed: u64,
+    pub k_sel: u8,
+    pub extra: u32,
+    pub rc: bool,
+    pub records: u8,
+}
+
+fn long_weed_strategy() -> BoxedStrategy<LongWeedCase> {
+    (any::<u64>(), 0u8..3, 0u32..200_000, prop::bool::weighted(0.7), 1u8..4)
+        .prop_map(|(seed, k_sel, extra, rc, records)| LongWeedCase { seed, k_sel, extra, rc, records })
+        .boxed()
+}
+
+fn check_long_weed(c: &LongWeedCase, ctx: &Ctx) -> Outcome {
+    let k = [31usize, 33, 41][c.k_sel as usize % 3];
+    const B: usize = 1 << 22;
+    let mut x = c.seed | 1;
+    let mut rnd = |n: usize| -> Vec<u8> { (0..n).map(|_| { x = crate::engine::splitmix64(x); model::BASES[(x >> 33) as usize & 3] }).collect() };
+    let g = rnd(B + 50_000 + c.extra as usize);
+    // two samples made of pieces of the weed genome from either side of (and across) its 2^22-th base, one of them
+    // reverse-complemented, plus sequence of their own
+    let (u0, u1) = (rnd(300), rnd(260));
+    let s0: Vec<Vec<u8>> = vec![g[100..400].to_vec(), u0, g[B + 500..B + 900].to_vec()];
+    let s1: Vec<Vec<u8>> = vec![g[B - 200..B + 200].to_vec(), model::revcomp(&g[2000..2300]), u1];
+    let samples: Vec<Sample> = vec![("left_right".to_string(), s0), ("across".to_string(), s1)];
+    // the part of the weed set that matters: k-mers of the regions the pieces were cut from (k >= 31: any other
+    // coincidence between 4.3 million weed k-mers and these samples has probability < 1e-9)
+    let wset: BTreeSet<Vec<u8>> = model::build_sample(&[g[100..400].to_vec(), g[B + 500..B + 900].to_vec(), g[B - 200..B + 200].to_vec(), g[2000..2300].to_vec()], k, c.rc).keys().cloned().collect();
+    let dir = ctx.case_dir();
+    let r: Result<(usize, usize), Outcome> = (|| {
+        // the weed file: the genome in 1-3 records, wrapped
+        let cuts: Vec<usize> = match c.records { 1 => vec![0, g.len()], 2 => vec![0, g.len() / 3, g.len()], _ => vec![0, B - 7, B + 40_000, g.len()] };
+        let recs: Vec<Vec<u8>> = cuts.windows(2).map(|w| g[w[0]..w[1]].to_vec()).collect();
+        let names: Vec<String> = (0..recs.len()).map(|i| format!("chr{i}")).collect();
+        cli::write_fasta(&dir.join("weed.fa"), &names, &recs, Some(80));
+        let cut_kmers: BTreeSet<Vec<u8>> = if recs.len() > 1 {
+            // k-mers that span a cut between two records are not in the weed file
+            let mut spanning = BTreeSet::new();
+            for c0 in &cuts[1..cuts.len() - 1] {
+                let (a, b) = (c0.saturating_sub(k - 1), (*c0 + k - 1).min(g.len()));
+                let whole: BTreeSet<Vec<u8>> = model::build_sample(&[g[a..b].to_vec()], k, c.rc).keys().cloned().collect();
+                let parts: BTreeSet<Vec<u8>> = model::build_sample(&[g[a..*c0].to_vec(), g[*c0..b].to_vec()], k, c.rc).keys().cloned().collect();
+                spanning.extend(whole.difference(&parts).cloned());
+            }
+            spanning
+        } else {
+            BTreeSet::new()
+        };
+        let wset: BTreeSet<Vec<u8>> = wset.difference(&cut_kmers).cloned().collect();
+        must_ok(&build(ctx, &dir, "x", &samples, k, c.rc, 1), "ska build")?;
+        let (_d, full) = model_table(&samples, k, c.rc);
+        let mut results = Vec::new();
+        for reverse in [false, true] {
+            let out = if reverse { "rev.skf" } else { "fwd.skf" };
+            let mut args: Vec<&str> = vec!["weed", "x.skf", "weed.fa", "-o", out, "--min-freq", "0"];
+            if reverse {
+                args.push("--reverse");
+            }
+            must_ok(&run_ska(ctx, &dir, &args), &format!("ska {}", args.join(" ")))?;
+            let got = nk(ctx, &dir, out)?;
+            model::compare_nk(&got, &full.weed(&wset, reverse), k, c.rc, Some(k_bits_for(k))).map_err(|m| Outcome::Fail(format!("weed{} with a weed file of {} bases: {m}", if reverse { " --reverse" } else { "" }, g.len())))?;
+            results.push(got.table());
+        }
+        Ok((results[0].rows.len(), results[1].rows.len()))
+    })();
+    ctx.done(&dir);
+    match r {
+        Err(Outcome::Fail(m)) => Outcome::Fail(format!("k={k} rc={} seed={} weed genome of {} bases in {} record(s): {m}", c.rc, c.seed, (1usize << 22) + 50_000 + c.extra as usize, c.records)),
+        Err(o) => o,
+        Ok((kept, weeded)) => pass(kept > 0 && weeded > 0, key_of(&(k, c.rc, c.seed, c.extra, c.records)), vec![if k >= 33 { "128bit" } else { "64bit" }]),
+    }
+}
+
 const RULE: &str = "generated: file of 2-6 related samples; weed FASTA = mix of ancestor-derived pieces (substrings, mutated, reverse-complemented, with N), unrelated records, optionally a whole sample or all samples, written unwrapped or wrapped at a generated width; --min-freq 0; both directions run from the same original (in place on a copy, or with -o). Oracle: result == model rows whose arms are not in (reverse: are in) the weed k-mer set, all symbols and names kept; the two results partition the original (checked without the model); a second weed changes nothing. Non-trivial: >=1 row removed and >=1 kept, or a reverse-complemented weed sequence matches.";
 
 fn stages(tier: Tier) -> Vec<Box<dyn Stage>> {
@@ -196,7 +273,8 @@ fn stages(tier: Tier) -> Vec<Box<dyn Stage>> {
         let (anc, s) = gen::materialise_set(&c.set);
         json!({"k": c.set.k, "two_strand": c.set.rc, "weed": weed_records(c, &anc, &s).iter().map(|x| lossy(x)).collect::<Vec<_>>(),
             "samples": s.iter().map(|(n, r)| json!({"name": n, "records": r.iter().map(|x| lossy(x)).collect::<Vec<_>>()})).collect::<Vec<_>>()})
-    })]
+    }),
+    gen_stage_show("genome_sized_weed_file", "generated: a weed FASTA of 2^22 + 50000..250000 random bases (more than 2^22 split k-mers; 1-3 records, wrapped at 80) and two samples made of pieces of it from either side of and across its 2^22-th base (one reverse-complemented) plus sequence of their own; k in {31,33,41}, both strand modes; weed and weed --reverse == model (weed set restricted to the regions the pieces come from). Non-trivial: both results non-empty.", tier.pick(3, 24), 2, long_weed_strategy, check_long_weed, |c| json!({"seed": c.seed, "k_index": c.k_sel % 3, "weed_bases": (1usize << 22) + 50_000 + c.extra as usize, "rc": c.rc, "records": c.records}))]
 }
 
 pub fn def() -> PropDef {
